@@ -113,7 +113,10 @@ pub fn stream_case(id: &str, stream: &[u32], ev: &mut crate::ev::Evidence) -> Re
             let p = &ps[pick(ps.len())];
             c17::check_idem(&c17::valid_text(rest, p), ev, p.name)
         }
-        "C20" => c20::run_inprocess(&c20::gen_history(rest)).map(|_| ()),
+        "C20" => c20::run_inprocess(&c20::gen_history(rest)).map(|_| ()).map_err(|mut v| {
+            v.replay["stream"] = serde_json::json!(rest);
+            v
+        }),
         _ => Ok(()),
     }
 }
